@@ -7,7 +7,7 @@
    and does not disturb a recovery) on every trace in which the application sends no ResendRequest of its own through
    SendToTarget while a TestRequest is pending, refuted without that hypothesis (Session/PendingProofs.v). *)
 From Coq Require Import ZArith List Bool.
-From QF Require Import Base.Bytes Session.Types Session.Model Session.Spec Session.LocalProofs Session.FrameProofs Session.TraceProofs Session.KeepAliveProofs Session.LogonProofs Session.ChunkProofs Session.ResendInvProofs Session.TgProofs Session.KeptProofs Session.StashTypeProofs Session.PendingProofs.
+From QF Require Import Base.Bytes Session.Types Session.Model Session.Spec Session.LocalProofs Session.FrameProofs Session.TraceProofs Session.KeepAliveProofs Session.LogonProofs Session.ChunkProofs Session.ResendInvProofs Session.TgProofs Session.KeptProofs Session.StashTypeProofs Session.PendingProofs Session.RecoveryProofs.
 Import ListNotations.
 Open Scope Z_scope.
 
@@ -168,3 +168,8 @@ Proof. exact (conj pdx_trace_plain pdx_trace_recovers). Qed.
 Theorem c20_inbound_cancels_pending_refuted :
   exists c es, c20_check c (combine es (map obs_of (run_trace es (init_sess c)))) = [(5%nat, 2005)].
 Proof. exact c20_2005_app_resend_request_refuted. Qed.
+
+(* C20's "without disturbing a gap recovery in progress" for the timer events themselves; the check evaluates clause 406 on the implementation for C20 too *)
+Theorem c20_timers_keep_recovery_on_any_trace : forall c es,
+  free_of [406] (c04_check c (combine es (map obs_of (run_trace es (init_sess c))))) = true.
+Proof. exact c04_timers_never_disturb_recovery. Qed.
